@@ -4,6 +4,7 @@ from __future__ import annotations
 
 import json
 
+from vt import canon as _canon
 from vt import core, explore
 from vt.env.iprig import IpRig, std_handler
 from vt.ref import ipacc
@@ -246,6 +247,9 @@ class H(explore.Harness):
         return (
             tuple(sorted(self.pairing.subscriptions)), tuple(sorted(self.model_subs)), self.offline, tuple(sorted(getattr(cur.session, "ev", set()))) if cur else None, tuple(sorted(self.unreg)), self.cut_armed, self.cutoff_happened,
             self.pairing.supports_subscribe, bool(self.pairing.is_connected), self.drops, tuple(sorted((k, len(v)) for k, v in self.logs.items())), "S" in self.logs,
+            _canon.canon(self.pairing, depth=3, skip=("controller", "_accessories_state", "pairing_data", "_pairing_data", "listeners", "availability_listeners", "config_changed_listeners",
+                                                     "owner", "_loop", "_connect_lock", "_connector", "description", "c2a_key", "a2c_key", "encryptor", "decryptor", "c2a_counter", "a2c_counter")),
+            tuple(sorted(round(h._when - self.loop.time(), 6) for h in self.loop._scheduled if not h._cancelled)),
         )
 
     def finish(self):
